@@ -45,7 +45,7 @@ package ratelimitmw
 //@   modifies heap, prlCounted[this], rk, rlog
 //@   ensures prlCounted[this] == old(prlCounted[this]) + 1
 
-//@ pred MW(mw *Middleware) = mw.limiter != nil && mw.metrics != nil && mw.accessManager != nil && mw.messages != nil &&
+//@ pred MW(mw *Middleware) = mw != nil && mw.limiter != nil && mw.metrics != nil && mw.accessManager != nil && mw.messages != nil &&
 //@        mw.deviceFinder != nil && mw.geoIP != nil && mw.pool != nil
 
 // ---------------------------------------------------------------------------
@@ -90,3 +90,82 @@ package ratelimitmw
 //@   ensures rlStage == old(rlStage) + 1
 //@   ensures other-protocols-not-limited: !(exists i int :: 0 <= i && i < old(len(mw.protos)) && old(mw.protos[i]) == old(ri.Proto)) ==>
 //@             served[next] == old(served[next]) + 1 && servedRW[next] == rw && servedReq[next] == req
+
+// ---------------------------------------------------------------------------
+// C03: only DeviceResultOK lets a request continue with a profile; an unknown
+// dedicated address stops the request without an answer, an error stops it.
+
+//@ func (*Middleware).handleDeviceResult
+//@   property C03
+//@   requires mw.metrics != nil && (isptr(res, agd.DeviceResultError) ==> asptr(res, agd.DeviceResultError) != nil)
+//@   ensures unknown-dedicated-dropped: isptr(res, agd.DeviceResultUnknownDedicated) ==> !cont && err == nil
+//@   ensures error-stops: isptr(res, agd.DeviceResultError) ==> !cont && err == asptr(res, agd.DeviceResultError).Err
+//@   ensures otherwise-continue: !isptr(res, agd.DeviceResultUnknownDedicated) && !isptr(res, agd.DeviceResultError) ==> cont && err == nil
+
+// ---------------------------------------------------------------------------
+// C10: access-blocked requests are dropped silently and reach no later stage.
+
+//@ fun globBlockedIP(am access.Interface, ip netip.Addr) bool
+//@ fun globBlockedHost(am access.Interface, host string, qt int) bool
+//@ fun profBlocked(p access.Profile, req *dns.Msg, raddr netip.AddrPort, l *geoip.Location) bool
+//@ interface access.Interface method IsBlockedIP
+//@   modifies nothing
+//@   ensures blocked == globBlockedIP(this, ip)
+//@ interface access.Interface method IsBlockedHost
+//@   modifies nothing
+//@   ensures blocked == globBlockedHost(this, host, qt)
+//@ interface access.Profile method IsBlocked
+//@   modifies nothing
+//@   ensures blocked == profBlocked(this, req, rAddr, l)
+
+// DRValid: a device result that attributes the request to a profile carries a
+// complete profile (established by the device finder / profile database).
+//@ pred DRValid(r agd.DeviceResult) = (isptr(r, agd.DeviceResultError) ==> asptr(r, agd.DeviceResultError) != nil) && (isptr(r, agd.DeviceResultOK) ==> asptr(r, agd.DeviceResultOK) != nil &&
+//@        (asptr(r, agd.DeviceResultOK).Profile != nil ==> asptr(r, agd.DeviceResultOK).Profile.Access != nil &&
+//@          asptr(r, agd.DeviceResultOK).Profile.Ratelimiter != nil))
+
+//@ ghost accessChecks int
+//@ ghost lastAccessBlocked bool
+
+//@ func (*Middleware).isBlockedByAccess
+//@   property C10
+//@   requires MW(mw) && ri != nil && req != nil && DRValid(ri.DeviceResult)
+//@   modifies accessChecks, lastAccessBlocked
+//@   ghostset accessChecks = accessChecks + 1
+//@   ghostset lastAccessBlocked = isBlocked
+//@   ensures accessChecks == old(accessChecks) + 1 && lastAccessBlocked == isBlocked
+//@   ensures global-then-profile: isBlocked == (globBlockedIP(mw.accessManager, addrOf(raddr)) ||
+//@             globBlockedHost(mw.accessManager, ri.Host, ri.QType) ||
+//@             (isptr(ri.DeviceResult, agd.DeviceResultOK) && asptr(ri.DeviceResult, agd.DeviceResultOK).Profile != nil &&
+//@               profBlocked(asptr(ri.DeviceResult, agd.DeviceResultOK).Profile.Access, req, raddr, ri.Location)))
+
+// The request-info constructor and the GeoIP lookups are not sinks: they do
+// not write responses, call the next handler, or touch the limiter state.
+//@ func (*Middleware).newRequestInfo
+//@   requires MW(mw) && req != nil
+//@   modifies heap
+//@   ensures ri != nil && DRValid(ri.DeviceResult)
+//@ func (*Middleware).location
+//@   requires MW(mw) && req != nil
+//@   modifies heap
+
+//@ func (*Middleware).processLocationErr
+//@   property C05
+//@   requires MW(mw) && rw != nil && req != nil && origErr != nil
+//@   modifies heap, writes, wroteReq, wroteResp, wroteId, wroteRcode, wroteNQ, wroteQ, truncSize
+//@   ensures err != nil
+//@   ensures at-most-one-formerr: writes[rw] <= old(writes[rw]) + 1 &&
+//@             (writes[rw] == old(writes[rw]) + 1 ==> wroteRcode[rw] == 1 && wroteId[rw] == old(req.Id))
+//@   ensures forall h dnsserver.Handler :: served[h] == old(served[h])
+
+//@ func (*Middleware).Wrap$1
+//@   property C10 C03
+//@   requires MW(mw) && next != nil && rw != nil && req != nil
+//@   modifies heap, rlDrop, rlAllow, rlErr, rlCounted, prlResult, prlCounted, chas, cval, rk, rlog, served, servedReq, servedRW, servedErr,
+//@            writes, wroteReq, wroteResp, wroteId, wroteRcode, wroteNQ, wroteQ, truncSize, rlStage, accessChecks, lastAccessBlocked
+//@   ensures accessChecks <= old(accessChecks) + 1 && rlStage <= old(rlStage) + 1
+//@   ensures access-blocked-dropped-silently: accessChecks == old(accessChecks) + 1 && lastAccessBlocked ==> err == nil &&
+//@             rlStage == old(rlStage) && (forall w dnsserver.ResponseWriter :: writes[w] == old(writes[w])) &&
+//@             (forall h dnsserver.Handler :: served[h] == old(served[h]))
+//@   ensures not-blocked-processed-normally: accessChecks == old(accessChecks) + 1 && !lastAccessBlocked ==> rlStage == old(rlStage) + 1
+//@   ensures later-stages-only-after-access-check: rlStage == old(rlStage) + 1 ==> accessChecks == old(accessChecks) + 1 && !lastAccessBlocked
